@@ -194,6 +194,18 @@ impl<S: ShortGroupSignatureScheme> Issuer<S> {
             ));
         }
 
+        // the holder may only choose values for claims the schema declares blindable,
+        // never for a claim the issuer supplies itself, and for each at most once
+        let mut blind_labels = std::collections::BTreeSet::new();
+        for label in &request.blind_claim_labels {
+            if !self.schema.blind_claims.contains(label)
+                || claims.contains_key(label)
+                || !blind_labels.insert(label)
+            {
+                return Err(Error::InvalidClaimData("claim is not blindable"));
+            }
+        }
+
         let mut messages = Vec::with_capacity(claims.len());
         let mut revocation_label = None;
         let mut revocation_claim = None;
